@@ -2,7 +2,7 @@
 import os, json, glob
 from explore import Job, run_jobs, generic_search, generic_replay, Disagreement, impl_step, _masked_equal
 import c05lib
-from c05lib import (AFifoInst, BusSyncInst, BusSync1Inst, PulseSyncInst, AxiLiteCdcInst, AFifoRstInst, UartFifoInst,
+from c05lib import (MonitorInst, AFifoTokInst, AFifoInst, BusSyncInst, BusSync1Inst, PulseSyncInst, AxiLiteCdcInst, AFifoRstInst, UartFifoInst,
                     same_domain_inst, run_jobs_safe, CrossScoreboard)
 from litex.soc.interconnect import stream
 
@@ -50,9 +50,13 @@ def jobs(tier):
     A(lambda: same_domain_inst("ClockDomainCrossing(sys->sys)/1b", L1, "sys", False))
     A(lambda: same_domain_inst("ClockDomainCrossing(sys->sys,buffered)/1b", L1, "sys", True))
     A(lambda: same_domain_inst("ClockDomainCrossing(usb->usb,buffered)/1b", L1, "usb", True))
+    A(lambda: AFifoTokInst("AsyncFIFO(4)/1b payload, 1b param/alt",
+                           stream.AsyncFIFO(stream.EndpointDescription(L1, [("p", 1)]), 4), 2, L1, [("p", 1)],
+                           tokens=(0, 15), alternate=True))
     A(lambda: BusSyncInst("BusSynchronizer(2,t=8)/i=3", 2, 8, values=(3,)))
     A(lambda: BusSyncInst("BusSynchronizer(2,t=16)/i=3", 2, 16, values=(3,)))
     A(lambda: BusSyncInst("BusSynchronizer(3,t=5)/i=7", 3, 5, values=(7,)))
+    A(lambda: MonitorInst("Monitor(count_width=1, clock_domain=phy)", 1))
     A(lambda: BusSync1Inst("BusSynchronizer(1)"))
     A(lambda: PulseSyncInst("PulseSynchronizer"))
     if not quick:
@@ -71,10 +75,15 @@ def jobs(tier):
     B(lambda: AFifoInst("AsyncFIFO(8)/8b", stream.AsyncFIFO(L8, 8), 3, layout=L8))
     B(lambda: AFifoInst("AsyncFIFO(16,buffered)/32b", stream.AsyncFIFO(L32, 16, buffered=True), 4, buffered=True,
                         layout=L32))
-    B(lambda: AFifoInst("AsyncFIFO(8,buffered)/128b+16b payload, 5b param", _wide_fifo(8, True), 3, buffered=True,
-                        layout=WIDE_P, param_layout=WIDE_Q), cycles=4000)
-    B(lambda: AFifoInst("AsyncFIFO(4)/128b+16b payload, 5b param", _wide_fifo(4, False), 2,
-                        layout=WIDE_P, param_layout=WIDE_Q), cycles=4000)
+    # endpoint token field by field (payload AND param through _FIFOWrapper): model `afifo_tok`
+    B(lambda: AFifoTokInst("AsyncFIFO(8,buffered)/128b+16b payload, 5b param", _wide_fifo(8, True), 3, WIDE_P, WIDE_Q,
+                           buffered=True), cycles=4000)
+    B(lambda: AFifoTokInst("AsyncFIFO(4)/128b+16b payload, 5b param", _wide_fifo(4, False), 2, WIDE_P, WIDE_Q),
+      cycles=4000)
+    B(lambda: AFifoTokInst("ClockDomainCrossing(16,usb->eth)/8b payload, 3b+4b param",
+                           stream.ClockDomainCrossing(stream.EndpointDescription(L8, [("id", 3), ("dest", 4)]),
+                                                      cd_from="usb", cd_to="eth", depth=16), 4, L8,
+                           [("id", 3), ("dest", 4)], cd_w="usb", cd_r="eth"), cycles=4000)
     B(lambda: AFifoInst("ClockDomainCrossing(64,sys->phy)/32b", _cdc(L32, 64, cd_from="sys", cd_to="phy"), 6,
                         cd_w="sys", cd_r="phy", layout=L32))
     B(lambda: AFifoInst("ClockDomainCrossing(32,buffered)/8b", _cdc(L8, 32, True), 5, buffered=True,
@@ -109,6 +118,8 @@ def jobs(tier):
     B(lambda: BusSyncInst("BusSynchronizer(8,t=128)/i:o=30:10 phase 1", 8, 128, pattern=(30, 10, 1)), cycles=12000)
     B(lambda: BusSyncInst("BusSynchronizer(4,t=19)/i:o=14:10 phase 2", 4, 19, pattern=(14, 10, 2)), cycles=12000)
     B(lambda: BusSyncInst("BusSynchronizer(8,t=19)/i:o=10:30 phase 7", 8, 19, pattern=(10, 30, 7)), cycles=12000)
+    B(lambda: MonitorInst("Monitor(count_width=4, clock_domain=phy)", 4), cycles=15000)
+    B(lambda: MonitorInst("Monitor(count_width=32, clock_domain=phy)", 32), cycles=8000)
     B(lambda: PulseSyncInst("PulseSynchronizer/spaced pulses"), cycles=20000)
     return J
 
@@ -144,9 +155,85 @@ def corner_checks(ctx):
     return dis
 
 
+def _has(module, cls):
+    seen, todo = set(), [module]
+    while todo:
+        m = todo.pop()
+        if id(m) in seen:
+            continue
+        seen.add(id(m))
+        if isinstance(m, cls):
+            return m
+        todo += [sub for _, sub in getattr(m, "_submodules", [])]
+    return None
+
+
+def _classify_fifo(m):
+    """What a constructor/selection helper really built, read off the object structure."""
+    from migen.genlib import fifo as mfifo
+    af = _has(m, mfifo.AsyncFIFO)
+    if af is not None:
+        return "async %d" % af.depth
+    sb = _has(m, mfifo.SyncFIFOBuffered)
+    if sb is not None:
+        return "sync_buffered %d" % sb.depth
+    return "other:" + type(m).__name__
+
+
+def _classify_cdc(m):
+    from migen.genlib import fifo as mfifo
+    af = _has(m, mfifo.AsyncFIFO)
+    if af is not None:
+        return "afifo %d %d" % (af.depth.bit_length() - 1, 1 if _has(m, mfifo.AsyncFIFOBuffered) is not None else 0)
+    if _has(m, stream.Buffer) is not None:
+        return "buffer"
+    return "wire"
+
+
+def glue_checks(ctx):
+    """Mode C for the selection glue: the Lean decision functions (`cdcKind`, `uartFifoKind`, `uartTxFifo`,
+    `uartRxFifo`) against what the real constructors build, over a grid of domain names, depths and options."""
+    from litex.soc.cores import uart
+    cases = []
+    doms = ["sys", "phy", "usb"]
+    for a in doms:
+        for b in doms:
+            for depth in (None, 4, 8, 64):
+                for buf in (0, 1):
+                    cases.append(("cdc_kind %s %s %s %d" % (a, b, "none" if depth is None else depth.bit_length() - 1, buf),
+                                  lambda a=a, b=b, depth=depth, buf=buf: _classify_cdc(
+                                      stream.ClockDomainCrossing(L8, cd_from=a, cd_to=b, depth=depth, buffered=bool(buf)))))
+            for depth in (8, 16):
+                cases.append(("uart_fifo_kind %d %s %s" % (depth, a, b),
+                              lambda a=a, b=b, depth=depth: _classify_fifo(uart._get_uart_fifo(depth, sink_cd=a, source_cd=b))))
+    cases.append(("uart_fifo_kind 16 sys sys", lambda: _classify_fifo(uart._get_uart_fifo(16))))     # default arguments
+    for p in doms:
+        for (dt, dr) in ((16, 16), (8, 32)):
+            mk = lambda p=p, dt=dt, dr=dr: uart.UART(phy=None, tx_fifo_depth=dt, rx_fifo_depth=dr, phy_cd=p)
+            cases.append(("uart_tx %d %s" % (dt, p), lambda mk=mk: _classify_fifo(mk().tx_fifo)))
+            cases.append(("uart_rx %d %s" % (dr, p), lambda mk=mk: _classify_fifo(mk().rx_fifo)))
+    answers = ctx.lean.call_batch([c[0] for c in cases])
+    dis = []
+    for (q, real), model in zip(cases, answers):
+        try:
+            got = real()
+        except Exception as e:
+            got = "exception:" + repr(e)
+        ctx.cov.count("glue:" + q.split()[0])
+        if got != model:
+            d = Disagreement(None, [q.split()], 0, [got], [model], kind="glue: %s -> code %s, model %s" % (q, got, model))
+            d.inst_name, d.lean_open = "selection glue", None
+            dis.append(d)
+    ctx.cov.add_cases("glue: ClockDomainCrossing / _get_uart_fifo / UART fifo selection", len(cases),
+                      len(cases), exhaustive=False)
+    return dis
+
+
 def _corpus_instance(spec):
     if spec["kind"] == "bussync":
         return BusSyncInst(spec["name"], spec["width"], spec["timeout"])
+    if spec["kind"] == "monitor":
+        return MonitorInst(spec["name"], spec["w"])
     if spec["kind"] == "afifo_rst":
         return AFifoRstInst(spec["name"], [("data", spec["data_width"])], spec["k"], buffered=spec["buffered"])
     raise ValueError(spec)
@@ -161,7 +248,8 @@ def run_corpus(ctx):
         w = json.load(open(path))
         inst = _corpus_instance(w["instance"])
         trace = [tuple(l) for l in w["trace"]]
-        mon = inst.monitor()
+        # a negative witness lies outside the region in which the instance arms its monitors: use the bare oracle
+        mon = c05lib.CoherenceMonitor() if w["instance"]["kind"] == "bussync" else inst.monitor()
         fired = None
         impl_outs = []
         for t, letter in enumerate(trace):
@@ -178,6 +266,9 @@ def run_corpus(ctx):
             if not _masked_equal(inst, impl_outs[t], model_outs[t]):
                 dis.append(Disagreement(inst, trace[:t + 1], t, impl_outs[t], model_outs[t]))
                 break
+        if "expect_final_outputs" in w and impl_outs and impl_outs[-1] != w["expect_final_outputs"]:
+            ctx.cov.notes.append("corpus witness %s: final outputs %r, recorded %r" % (
+                os.path.basename(path), impl_outs[-1], w["expect_final_outputs"]))
         ok = (fired is not None) == bool(w.get("oracle_fires"))
         ctx.cov.add_cases("corpus:" + os.path.basename(path), len(trace), len(trace), exhaustive=False)
         if not ok:
@@ -190,7 +281,7 @@ def run_corpus(ctx):
 
 
 def correspond(ctx):
-    dis = run_corpus(ctx) + corner_checks(ctx)
+    dis = run_corpus(ctx) + corner_checks(ctx) + glue_checks(ctx)
     ctx.jobs = jobs(ctx.tier)
     d2, bad = run_jobs_safe(ctx, ctx.jobs, timeout_s=600 if ctx.tier == "quick" else 3000)
     return dis + d2
